@@ -76,6 +76,8 @@ type Stats struct {
 	AssertsSym   int
 	AssertsConc  int
 	SymFmt       int
+	XChecked     int
+	XDisagree    int
 	Reach        map[string]int
 	Assumes      map[string]int
 	Funcs        map[*ssa.Function]struct{}
@@ -477,6 +479,8 @@ func (s *Stats) merge(o *Stats) {
 	s.AssertsSym += o.AssertsSym
 	s.AssertsConc += o.AssertsConc
 	s.SymFmt += o.SymFmt
+	s.XChecked += o.XChecked
+	s.XDisagree += o.XDisagree
 	if o.MaxPathSteps > s.MaxPathSteps {
 		s.MaxPathSteps = o.MaxPathSteps
 	}
